@@ -185,7 +185,7 @@ func tycTerm(fc *validate.FieldConstraints) (string, *validate.FieldConstraints)
 				return "COther", nil
 			}
 		}
-		return fmt.Sprintf("(CStr %s %s %s %s)", coqOptU64(s.MinLen), coqOptU64(s.MaxLen), coqOptStr(s.Pattern), vh.BoolTerm(uuid)),
+		return fmt.Sprintf("(CStr %s %s %s %s)", coqOptU64(s.MinLen), coqOptU64(s.MaxLen), optRunes(s.Pattern), vh.BoolTerm(uuid)),
 			&validate.FieldConstraints{Type: &validate.FieldConstraints_String_{String_: r}}
 	case *validate.FieldConstraints_Bytes:
 		return fmt.Sprintf("(CBytes %s %s)", coqOptU64(t.Bytes.MinLen), coqOptU64(t.Bytes.MaxLen)),
@@ -200,13 +200,52 @@ func tycTerm(fc *validate.FieldConstraints) (string, *validate.FieldConstraints)
 		return fmt.Sprintf("(CEnum %s %s %s)", vh.BoolTerm(*t.Enum.DefinedOnly), zlist(t.Enum.In), zlist(t.Enum.NotIn)),
 			&validate.FieldConstraints{Type: &validate.FieldConstraints_Enum{Enum: &validate.EnumRules{DefinedOnly: t.Enum.DefinedOnly, In: t.Enum.In, NotIn: t.Enum.NotIn}}}
 	case *validate.FieldConstraints_Timestamp:
-		return "CTimestamp", &validate.FieldConstraints{Type: &validate.FieldConstraints_Timestamp{Timestamp: &validate.TimestampRules{}}}
+		ub, lb := "NoUb", "NoLb"
+		r := &validate.TimestampRules{}
+		secs := func(ts interface {
+			GetSeconds() int64
+			GetNanos() int32
+		}) (int64, bool) {
+			return ts.GetSeconds(), ts.GetNanos() == 0
+		}
+		ok := true
+		switch b := t.Timestamp.GetLessThan().(type) {
+		case *validate.TimestampRules_Lt:
+			s, o := secs(b.Lt)
+			ok = ok && o
+			ub = fmt.Sprintf("(Lt (%d)%%Z)", s)
+			r.LessThan = &validate.TimestampRules_Lt{Lt: b.Lt}
+		case *validate.TimestampRules_Lte:
+			s, o := secs(b.Lte)
+			ok = ok && o
+			ub = fmt.Sprintf("(Lte (%d)%%Z)", s)
+			r.LessThan = &validate.TimestampRules_Lte{Lte: b.Lte}
+		}
+		switch b := t.Timestamp.GetGreaterThan().(type) {
+		case *validate.TimestampRules_Gt:
+			s, o := secs(b.Gt)
+			ok = ok && o
+			lb = fmt.Sprintf("(Gt (%d)%%Z)", s)
+			r.GreaterThan = &validate.TimestampRules_Gt{Gt: b.Gt}
+		case *validate.TimestampRules_Gte:
+			s, o := secs(b.Gte)
+			ok = ok && o
+			lb = fmt.Sprintf("(Gte (%d)%%Z)", s)
+			r.GreaterThan = &validate.TimestampRules_Gte{Gte: b.Gte}
+		}
+		if !ok {
+			return "COther", nil
+		}
+		return fmt.Sprintf("(CTimestamp %s %s)", ub, lb), &validate.FieldConstraints{Type: &validate.FieldConstraints_Timestamp{Timestamp: r}}
 	case *validate.FieldConstraints_Map:
 		mr := t.Map
 		values := "None"
 		r := &validate.MapRules{MinPairs: mr.MinPairs, MaxPairs: mr.MaxPairs}
 		if mr.Values != nil {
 			it, back := tycTerm(mr.Values)
+			if it == "" && back != nil {
+				it = "CEmpty" // a FieldConstraints without a type
+			}
 			if it == "" || back == nil || mr.Values.Required != nil {
 				return "COther", nil
 			}
@@ -221,6 +260,9 @@ func tycTerm(fc *validate.FieldConstraints) (string, *validate.FieldConstraints)
 		r := &validate.RepeatedRules{MinItems: rr.MinItems, MaxItems: rr.MaxItems, Unique: rr.Unique}
 		if rr.Items != nil {
 			it, back := tycTerm(rr.Items)
+			if it == "" && back != nil {
+				it = "CEmpty" // a FieldConstraints without a type
+			}
 			if it == "" || back == nil || rr.Items.Required != nil {
 				return "COther", nil
 			}
@@ -303,7 +345,7 @@ func extTerm(fd protoreflect.FieldDescriptor) string {
 		f := "None"
 		switch kt := t.Key.Type.(type) {
 		case *ext_j5pb.KeyField_Pattern:
-			f = "(Some (KCustom " + vh.BytesTerm(kt.Pattern) + "))"
+			f = "(Some (KCustom " + vh.RunesTerm(kt.Pattern) + "))"
 			kf.Type = &ext_j5pb.KeyField_Pattern{Pattern: kt.Pattern}
 		case *ext_j5pb.KeyField_Format_:
 			switch kt.Format {
@@ -506,9 +548,9 @@ func kindTerm(fd protoreflect.FieldDescriptor) string {
 		return "KdEnum"
 	case protoreflect.MessageKind:
 		switch fd.Message().FullName() {
-		case "foo.v1.Bar":
+		case "foo.v1.Bar", "foo.v1.Baz":
 			return "KdMsgObject"
-		case "foo.v1.Choice":
+		case "foo.v1.Choice", "foo.v1.Pick":
 			return "KdMsgOneof"
 		case "google.protobuf.Timestamp":
 			return "KdTimestamp"
@@ -540,8 +582,8 @@ func declaredComment(fd protoreflect.Descriptor) string {
 }
 
 func foutTerm(fd protoreflect.FieldDescriptor) string {
-	return fmt.Sprintf("(FO %s %d %s %s %s %s %s %s %s %s %s)",
-		vh.BytesTerm(fd.JSONName()), fd.Number(), kindTerm(fd),
+	return fmt.Sprintf("(FO %s %s %d %s %s %s %s %s %s %s %s %s)",
+		vh.BytesTerm(fd.JSONName()), vh.BytesTerm(string(fd.Name())), fd.Number(), kindTerm(fd),
 		vh.BoolTerm(fd.IsList() || fd.IsMap()), vh.BoolTerm(fd.HasOptionalKeyword()), vh.BoolTerm(fd.HasPresence()),
 		constraintTerm(fd), extTerm(fd), listTerm(fd), keyTerm(fd), vh.BytesTerm(declaredComment(fd)))
 }
@@ -737,6 +779,10 @@ func messageWithID(md protoreflect.MessageDescriptor, id int64) protoreflect.Mes
 		set("x", protoreflect.ValueOfString(fmt.Sprintf("m%d", id)))
 	case "foo.v1.Choice":
 		set("a", protoreflect.ValueOfString(fmt.Sprintf("m%d", id)))
+	case "foo.v1.Baz":
+		set("y", protoreflect.ValueOfInt32(int32(id)))
+	case "foo.v1.Pick":
+		set("c", protoreflect.ValueOfString(fmt.Sprintf("m%d", id)))
 	case "google.protobuf.Timestamp":
 		set("seconds", protoreflect.ValueOfInt64(id))
 	case "j5.types.date.v1.Date":
